@@ -17,9 +17,10 @@ Requests:
   {"op":"split",...,"m":int|null,"xs":[ints]} -> {"e":..} | {"r":[[ints]]}
 Replies also carry the specification side of the theorems, evaluated on the same case:
   init: "contract" (`initContract`);  run: "spec" (`specBlocks … (chunks …)`), "seqspec" (rhs of `seq_run_blocks`);
-  ops: "o" (`runOps`: outputs per request, final sizes), "fills", "inv" (`invOps`), "spec" (closed history: `emitAll`
-  over `segments`/`chunks` with yield_on_remainder, `runFillCompute` on the filled values without), "rec" (`lstEl`,
-  lhs of `accounted_once_recorded`).
+  ops: "chk" = five Booleans: `runOps` (outputs per request, final sizes) agrees with the trace "t" that is compared with
+  the real code; `fills` = the filled values; `invOps`; closed history: `emitAll` over `segments`/`chunks` (with
+  yield_on_remainder) / `runFillCompute` on the filled values (without) = what the requests of "t" yielded; `lstEl`
+  (lhs of `accounted_once_recorded`) = the filled values.
 Extended model (Model/C16X.lean); "el" additionally {"stop":int|null,"stores":bool} (fill raises LenaStopFill for every
 value >= stop, after/without storing it), "ev":"call"|"request" (where the adapter iterates generator objects):
   {"op":"opsx",...,"ops":[int|null|"r"]} ("r" = FillRequest.reset()) -> {"t":[[out|null,raised,n_count,len_in,len_out],..]}
@@ -172,21 +173,32 @@ def handle (j : Json) : Json :=
         let tr := traceOps e N c.reset c.bufferInput c.yor ops (St.init [])
         let ro := runOps e N c.reset c.bufferInput c.yor ops (St.init [])
         -- closed history: the specification of what all requests together yield
-        let spec : Json :=
+        let spec : Option (List (List Int)) :=
           if closed ops then
             let body := dropLastOp ops
-            if c.yor then ofOuts (emitAll e c.reset [] ((segments body []).flatMap (chunks N))).1
-            else ofOuts (runFillCompute e N c.reset false [] (fills body)).1
-          else Json.null
+            if c.yor then some (emitAll e c.reset [] ((segments body []).flatMap (chunks N))).1
+            else some (runFillCompute e N c.reset false [] (fills body)).1
+          else none
         -- the recording element, reset on: lhs of `accounted_once_recorded`
         let rr := runOps (lstEl : El (List Int) Int (List Int)) N true c.bufferInput c.yor ops (St.init [])
+        -- the trace `tr` is compared with the real code; the other definitions are compared with it here, which
+        -- keeps the replies small: "chk" = [runOps agrees with the trace (outputs per request, final sizes),
+        -- fills = the filled values, invOps, the closed-history specification = what the requests yielded,
+        -- the recording element accounts for exactly the filled values]
+        let trOuts := tr.filterMap (·.1)
+        let lastSizes : Nat × Nat × Nat := match tr.getLast? with
+          | some r => r.2
+          | none => (0, 0, 0)
+        let oOk := ro.1 == trOuts && (ro.2.nCount, ro.2.bufIn.length, ro.2.bufOut.length) == lastSizes
+        let vals : List Int := ops.filterMap (fun o => match o with | .fill x => some x | .request => none)
+        let specOk := match spec with
+          | some sp => sp == trOuts.flatten
+          | none => true
+        let recOk := ((rr.1.flatten ++ rr.2.bufOut).flatten ++ rr.2.el ++ rr.2.bufIn) == vals
         Json.mkObj [("t", ofList (fun (r : Option (List (List Int)) × Nat × Nat × Nat) =>
             Json.arr #[ofOpt ofOuts r.1, ofNat r.2.1, ofNat r.2.2.1, ofNat r.2.2.2]) tr),
-          ("o", Json.arr #[ofList ofOuts ro.1, ofNat ro.2.nCount, ofNat ro.2.bufIn.length, ofNat ro.2.bufOut.length]),
-          ("fills", ofIntList (fills ops)),
-          ("inv", Json.bool (invOps e N c.reset c.bufferInput c.yor ops (St.init []))),
-          ("spec", spec),
-          ("rec", ofIntList ((rr.1.flatten ++ rr.2.bufOut).flatten ++ rr.2.el ++ rr.2.bufIn))]
+          ("chk", Json.arr #[Json.bool oOk, Json.bool (fills ops == vals),
+            Json.bool (invOps e N c.reset c.bufferInput c.yor ops (St.init [])), Json.bool specOk, Json.bool recOk])]
       | _, _ => err "bad ops args"
     | some "split" =>
       match parseEl (getD j "el"), intList? (getD j "xs") with
